@@ -47,7 +47,7 @@ static std::string apply(const Sample &sm, const json &c, bool &ok) {
 	size_t st = f[k].first, ln = f[k].second;
 	if (op == "DelField") { size_t end = std::min(s.size(), st + ln + 1); s.erase(st, end - st); }
 	else if (op == "DupField") { std::string piece = s.substr(st, std::min(s.size() - st, ln + 1)); s.insert(st, piece); }
-	else if (op == "SetField") s.replace(st, ln, c["v"].get<std::string>());
+	else if (op == "SetField" || op == "SetDim") s.replace(st, ln, c["v"].get<std::string>());
 	else if (op == "TruncField") s = s.substr(0, st);
 	else if (op == "SwapFields") {
 		if (k + 1 >= f.size()) { ok = false; return s; }
@@ -88,6 +88,11 @@ static void build_samples() {
 	  TMCG_StackSecret<TMCG_CardSecret> ss; tm.TMCG_CreateStackSecret(ss, false, ring, 0, 2);
 	  std::ostringstream d, e, f, g; d << st; e << ss; f << pk; g << *the_key;
 	  samples.push_back({"qstack", d.str(), false}); samples.push_back({"qssec", e.str(), false});
+	  // a cut-and-choose transcript of the QR variant for the verifier's receiving side
+	  { TMCG_Stack<TMCG_Card> s2q; tm.TMCG_MixStack(st, s2q, ss, ring);
+	    std::stringstream pin, pout; pin << 2 << std::endl << 0 << std::endl << 1 << std::endl;
+	    tm.TMCG_ProveStackEquality(st, s2q, ss, false, ring, 0, pin, pout);
+	    samples.push_back({"qccproof", pout.str(), false}); }
 	  samples.push_back({"pubkey", f.str(), false}); samples.push_back({"seckey", g.str(), false});
 	  samples.push_back({"sig", the_key->sign("data"), false});
 	  samples.push_back({"enc", pk.encrypt((const unsigned char*)"01234567890123456789"), false});
@@ -151,6 +156,12 @@ static int consume(const std::string &type, const std::string &s) {
 		TMCG_Stack<VTMF_Card> st, s2; for (int i = 0; i < 3; i++) { VTMF_Card ci; tm.TMCG_CreateOpenCard(ci, vt, i); st.push(ci); s2.push(ci); }
 		std::ostringstream vo; bool r = tm.TMCG_VerifyStackEquality(st, s2, false, vt, in, vo); delete vt; return r;
 	}
+	if (type == "qccproof") {
+		TMCG_PublicKey pk(*the_key); TMCG_PublicKeyRing ring(2); ring.keys[0] = pk; ring.keys[1] = pk;
+		SchindelhauerTMCG tm(2, 2, 3);
+		TMCG_Stack<TMCG_Card> st, s2; for (int i = 0; i < 2; i++) { TMCG_Card ci(2, 3); tm.TMCG_CreateOpenCard(ci, ring, i); st.push(ci); s2.push(ci); }
+		std::ostringstream vo; return tm.TMCG_VerifyStackEquality(st, s2, false, ring, in, vo);
+	}
 	if (type == "keyproof") { BarnettSmartVTMF_dlog *vt = mkvtmf(); vt->KeyGenerationProtocol_GenerateKey(); bool r = vt->KeyGenerationProtocol_UpdateKey(in); delete vt; return r; }
 	if (type == "g_vtmf") { BarnettSmartVTMF_dlog v(in, 12, 11, false, true); bool r = v.CheckGroup(); Mpz a(5); v.CheckElement(a); return r; }
 	if (type == "g_vtmfqr") { BarnettSmartVTMF_dlog_GroupQR v(in, 12, 11); return v.CheckGroup(); }
@@ -210,6 +221,11 @@ int main(int argc, char **argv) {
 		std::ofstream out(argv[2]);
 		for (size_t i = 0; i < samples.size(); i++) {
 			json j; j["type"] = samples[i].type; j["nf"] = fields(samples[i].text).size(); j["nc"] = samples[i].text.size(); j["binary"] = samples[i].binary;
+			// fields that hold a small decimal number (dimensions, counts, indices): targets of the SetDim mutations
+			{ json dims = json::array(); if (!samples[i].binary) { std::vector<std::pair<size_t, size_t> > f = fields(samples[i].text);
+			    for (size_t k = 0; k < f.size(); k++) { std::string v = samples[i].text.substr(f[k].first, f[k].second);
+			      if (!v.empty() && v.size() <= 3 && v.find_first_not_of("0123456789") == std::string::npos) dims.push_back(k); } }
+			  j["dims"] = dims; }
 			bool acc = false; try { acc = consume(samples[i].type, samples[i].text); } catch (...) {}
 			j["valid_accepted"] = acc;
 			out << j.dump() << "\n";
